@@ -30,6 +30,7 @@ type Options struct {
 	MapOrderND  bool
 	MapOrderMax int
 	Tier        int
+	MaxCex      int
 }
 
 type PathAbort struct {
@@ -107,6 +108,9 @@ func Explore(prog *ssa.Program, fn *ssa.Function, opt Options) (res Result) {
 	if opt.MaxPaths == 0 {
 		opt.MaxPaths = 200000
 	}
+	if opt.MaxCex == 0 {
+		opt.MaxCex = 3
+	}
 	if opt.MapOrderMax == 0 {
 		opt.MapOrderMax = 3
 	}
@@ -130,7 +134,7 @@ func Explore(prog *ssa.Program, fn *ssa.Function, opt Options) (res Result) {
 		i := NewInterp(prog, &types.StdSizes{WordSize: 8, MaxAlign: 8})
 		ex := &Exec{solver: solver, prefix: prefix, work: &work, Viol: &res.Violations, Stats: &res.Stats,
 			maxDec: opt.MaxDec, maxSteps: opt.MaxSteps, maxMake: opt.MaxMake, known: opt.Known, deadline: deadline,
-			mapOrderND: opt.MapOrderND, mapOrderMax: opt.MapOrderMax, tier: opt.Tier}
+			mapOrderND: opt.MapOrderND, mapOrderMax: opt.MapOrderMax, tier: opt.Tier, maxCex: opt.MaxCex}
 		i.ex = ex
 		i.funcs = res.Functions
 		func() {
